@@ -118,7 +118,8 @@ def make(interp):
         if is_z3(a) and is_z3(b): return z3.eq(a, b)
         return False
     jnp = {
-        "array": B(lambda x, dtype=None: A.from_value(x)), "asarray": B(lambda x, dtype=None: A.from_value(x)),
+        "array": B(lambda x, dtype=None: A.astype(A.from_value(x), dtype) if dtype is not None else A.from_value(x)),
+        "asarray": B(lambda x, dtype=None: A.astype(A.from_value(x), dtype) if dtype is not None else A.from_value(x)),
         "zeros": B(lambda shape, dtype=None: A.zeros(shape)), "ones": B(lambda shape, dtype=None: A.zeros(shape, fill=1)),
         "zeros_like": B(lambda a, dtype=None: A.zeros(a.shape) if isinstance(a, SArr) else 0),
         "full": B(lambda shape, v, dtype=None: A.zeros(shape, fill=v)),
